@@ -204,13 +204,14 @@ Proof.
 Qed.
 
 (* restore keeps every acknowledged lease that passes loadByteArray's filter, with its address and expiry *)
-Lemma restore_keeps cL saved l x :
+Lemma restore_keeps cL se saved l x :
   In l saved -> l_state l = SAllocated -> l_ip l = Some x -> n_contains cL false x = true -> l_cid l <> 1 ->
-  exists l', In l' (restore cL saved) /\ l_cid l' = l_cid l /\ l_state l' = SAllocated /\
+  exists l', In l' (restore cL se saved) /\ l_cid l' = l_cid l /\ l_state l' = SAllocated /\
              l_ip l' = Some x /\ l_mac l' = l_mac l /\ l_exp l' = l_exp l.
 Proof.
   intros Hin S I Cn Nk. unfold restore.
-  exists (mkLease (l_cid l) SAllocated (l_mac l) (l_ip l) (l_offer l) (l_xid l) false (l_exp l)).
+  exists (mkLease (l_cid l) SAllocated (l_mac l) (l_ip l) (l_offer l) (l_xid l)
+            (sess_captured se (l_mac l) && match l_ip l with Some y => n_contains cL true y | None => false end) (l_exp l)).
   split; [|simpl; auto].
   apply in_map_iff. exists l. split; auto. apply filter_In. split; auto.
   rewrite S, I, Cn. simpl. apply negb_true_iff. apply N.eqb_neq. exact Nk.
@@ -221,16 +222,16 @@ Qed.
    final state that passes the load filter is acknowledged in run 2's initial state, for the same
    address, with the SAME expiry — the one its last ACK wrote: a lease unexpired at the end of run 1 is
    unexpired at the start of run 2. *)
-Theorem restart_expiry : forall cA cB h sA saved l x,
+Theorem restart_expiry : forall cA cB pre h sA saved l x,
   forallb (fun p => negb (is_hook (snd p))) h = true ->
   run_saving cA (init cA) [] h = (sA, saved) ->
   sub_changed (wanted cB) (c_sub cA) = false ->
   In l (tbl sA) -> l_state l = SAllocated -> l_ip l = Some x ->
   n_contains (loaded_cfg (c_sub cA) cB) false x = true -> l_cid l <> 1 ->
-  exists l', In l' (tbl (restart_state (c_sub cA) cB saved)) /\ l_cid l' = l_cid l /\
+  exists l', In l' (tbl (restart_state (c_sub cA) cB pre saved)) /\ l_cid l' = l_cid l /\
              l_state l' = SAllocated /\ l_ip l' = Some x /\ l_mac l' = l_mac l /\ l_exp l' = l_exp l.
 Proof.
-  intros cA cB h sA saved l x Hh Hr Hc Hin S I Cn Nk.
+  intros cA cB pre h sA saved l x Hh Hr Hc Hin S I Cn Nk.
   assert (J : in_file sA saved).
   { apply (run_saving_in_file cA h (init cA) [] sA saved Hh); auto. intros v Hv. destruct Hv. }
   unfold restart_state. rewrite Hc. cbn [tbl].
@@ -247,6 +248,6 @@ Definition wren : list op :=
    ORequest 1000 (mkMsg 2199023255553 1 3232235522 None None None false 0 [])].
 Lemma restart_expiry_example :
   let '(sA, saved) := run_saving wcfgR (init wcfgR) [] (with_ch0 wren) in
-  map (fun l => (l_state l, l_ip l, l_exp l)) (tbl (restart_state (c_sub wcfgR) wcfgR saved))
+  map (fun l => (l_state l, l_ip l, l_exp l)) (tbl (restart_state (c_sub wcfgR) wcfgR [] saved))
   = [(SAllocated, Some 3232235522, 15400%Z)].
 Proof. vm_compute. reflexivity. Qed.
